@@ -118,11 +118,21 @@ type c06Named struct {
 var c06Drivers = []string{"traverse-all-accessors", "next-only", "stepin-stepout", "decoder-loop", "unmarshal-interface", "unmarshal-typed"}
 
 // c06Drive runs one fixed driver; budget is the deterministic hang guard.
-func c06Drive(driver int, data []byte, target int) (calls int, hang string) {
+func c06Drive(driver int, data []byte, target int, withCat bool) (calls int, hang string) {
 	budget := 16*len(data) + 64
+	newReader := func() ion.Reader {
+		if withCat {
+			return ion.NewReaderCat(bytes.NewReader(data), ion.NewCatalog(c06CatTables()...))
+		}
+		return ion.NewReaderBytes(data)
+	}
+	var ssts []ion.SharedSymbolTable
+	if withCat {
+		ssts = c06CatTables()
+	}
 	switch driver {
 	case 0:
-		r := ion.NewReaderBytes(data)
+		r := newReader()
 		depth := 0
 		for calls < budget {
 			calls++
@@ -145,7 +155,7 @@ func c06Drive(driver int, data []byte, target int) (calls int, hang string) {
 		}
 		return calls, fmt.Sprintf("more than %d Next calls on %d input bytes", budget, len(data))
 	case 1:
-		r := ion.NewReaderBytes(data)
+		r := newReader()
 		for calls < budget {
 			calls++
 			if !r.Next() {
@@ -154,7 +164,7 @@ func c06Drive(driver int, data []byte, target int) (calls int, hang string) {
 		}
 		return calls, fmt.Sprintf("more than %d top-level values from %d input bytes", budget, len(data))
 	case 2:
-		r := ion.NewReaderBytes(data)
+		r := newReader()
 		for calls < budget {
 			calls++
 			if !r.Next() {
@@ -168,7 +178,7 @@ func c06Drive(driver int, data []byte, target int) (calls int, hang string) {
 		}
 		return calls, fmt.Sprintf("more than %d values from %d input bytes", budget, len(data))
 	case 3:
-		d := ion.NewDecoder(ion.NewReaderBytes(data))
+		d := ion.NewDecoder(newReader())
 		for calls < budget {
 			calls++
 			if _, err := d.Decode(); err != nil {
@@ -178,11 +188,23 @@ func c06Drive(driver int, data []byte, target int) (calls int, hang string) {
 		return calls, fmt.Sprintf("Decoder yielded more than %d values from %d input bytes", budget, len(data))
 	case 4:
 		var v interface{}
-		ion.Unmarshal(data, &v)
+		ion.Unmarshal(data, &v, ssts...)
 		return 1, ""
 	default:
-		ion.Unmarshal(data, c06Targets[target].mk())
+		ion.Unmarshal(data, c06Targets[target].mk(), ssts...)
 		return 1, ""
+	}
+}
+
+// c06CatTables: shared tables the hostile and seed documents import by name, each SHORTER than
+// the max_id those documents declare (so imports are padded) or longer (so they are truncated).
+func c06CatTables() []ion.SharedSymbolTable {
+	return []ion.SharedSymbolTable{
+		ion.NewSharedSymbolTable("t", 1, []string{"p", "q"}),
+		ion.NewSharedSymbolTable("t", 3, []string{"p", "q", "r", "s", "t"}),
+		ion.NewSharedSymbolTable("sh", 2, []string{"x"}),
+		ion.NewSharedSymbolTable("", 1, []string{"e"}),
+		ion.NewSharedSymbolTable("$ion", 2, []string{"bogus"}),
 	}
 }
 
@@ -402,6 +424,7 @@ func c06Body(c *mc.Ctx) {
 	var data []byte
 	var what string
 	thorough := c.Tier == "thorough"
+	hostile := false
 	switch c.Pick("family", 5) {
 	case 0: // (a) all short binary strings after the version marker
 		n := c.Pick("len", 4)
@@ -438,6 +461,7 @@ func c06Body(c *mc.Ctx) {
 		data = body
 		what = "short text"
 	case 2: // (b) hostile symbol tables, both formats
+		hostile = true
 		slot := c.Shard("slot", len(c06Slots))
 		v := c06Hostile[c.Pick("value", len(c06Hostile))]
 		vals := c06HostileLST(slot, v)
@@ -489,10 +513,15 @@ func c06Body(c *mc.Ctx) {
 	if driver == 5 {
 		target = c.Pick("target", len(c06Targets))
 	}
+	// hostile tables and seeds are also read with a catalog whose tables have other sizes than declared
+	withCat := hostile && c.Pick("catalog", 2) == 1
 	c.Case(func() string {
 		t := ""
 		if driver == 5 {
 			t = " into " + c06Targets[target].name
+		}
+		if withCat {
+			t += " with a catalog"
 		}
 		if len(data) >= 4 && data[0] == 0xE0 {
 			return fmt.Sprintf("%s: driver=%s%s input=%x", what, c06Drivers[driver], t, clipBytes(data, 64))
@@ -505,7 +534,7 @@ func c06Body(c *mc.Ctx) {
 	start := time.Now()
 	var calls int
 	var hang string
-	pan := drive.Safe(func() { calls, hang = c06Drive(driver, data, target) })
+	pan := drive.Safe(func() { calls, hang = c06Drive(driver, data, target, withCat) })
 	grown := allocBytes() - before
 	c.Step(calls)
 	if pan != "" {
@@ -523,7 +552,7 @@ func c06Body(c *mc.Ctx) {
 		for i := 0; i < 3 && grown > limit; i++ {
 			runtime.GC()
 			b := allocBytes()
-			drive.Safe(func() { c06Drive(driver, data, target) })
+			drive.Safe(func() { c06Drive(driver, data, target, withCat) })
 			if g := allocBytes() - b; g < grown {
 				grown = g
 			}
@@ -545,7 +574,7 @@ func init() {
 	mc.Register(&mc.Check{
 		ID:    "C06",
 		Title: "No input can crash, hang or exhaust memory in a Reader, Decoder or Unmarshal",
-		Rule: "inputs, all enumerated exhaustively: (a) the version marker followed by EVERY byte string of length <=2 and every length-3 string over a 48-tag alphabet (thorough: all 2^24), and EVERY text string of length <=3 (thorough 4) over a 37-character alphabet of grammar-significant bytes; (b) hostile symbol tables: 11 slots (symbols, symbols[i], imports, imports[i], name, version, max_id, duplicated fields, unknown fields, annotated slots) x 24 odd values (every typed null, wrong-typed scalars, negative/huge integers) in text and binary, followed by values using the affected IDs; " +
+		Rule: "inputs, all enumerated exhaustively: (a) the version marker followed by EVERY byte string of length <=2 and every length-3 string over a 48-tag alphabet (thorough: all 2^24), and EVERY text string of length <=3 (thorough 4) over a 37-character alphabet of grammar-significant bytes; (b) hostile symbol tables: 11 slots (symbols, symbols[i], imports, imports[i], name, version, max_id, duplicated fields, unknown fields, annotated slots) x 24 odd values (every typed null, wrong-typed scalars, negative/huge integers) in text and binary, followed by values using the affected IDs, each read without and with a catalog whose tables of those names are shorter or longer than the declared max_id; " +
 			"(c) extreme declared sizes: every type code with L=14 and VarUInt lengths up to 2^63+1 plus EVERY length in the last 48 below 2^64 (position+length wraps) at top level and nested, annotation wrappers whose wrapper length (0..13, VarUInt), annotation-list length (0..12), number of SID bytes present (0..11) and wrapped value disagree in every combination incl. wrapped lengths that balance modulo 2^64, at top level / in a list / in a struct, unterminated/overlong VarUInts, decimal and timestamp-fraction exponents and coefficients at int32/int64 boundaries, symbol IDs / max_id / version beyond int64, text exponents beyond int32, nesting to depth 5000; (d) every position of every seed document x byte substitutions (52 values quick, all 256 thorough) in both formats. " +
 			"Each input under six drivers (full traversal calling ALL 18 accessors on every value, Next only, StepIn/StepOut/refused StepOut, Decoder.Decode loop, Unmarshal into interface{}, Unmarshal into each of 23 typed targets incl. named key/element/slice types). Oracle: no panic (recovered and attributed), no worker death (case announced beforehand), at most 16*len+64 calls per driver (deterministic hang guard), heap allocation <= 1 MiB + 4 KiB per input byte. " +
 			"non-trivial = driver ran to completion under all guards; distinct = distinct (family, driver, progress) digests",
